@@ -296,6 +296,15 @@ def _pairs_shard(shard, nshards, known):
 
             for e in (mk(o2, mk(o1, A, B), C), mk(o1, A, mk(o2, B, C))):
                 vs_all += check_case(({}, e), res, queue if (idx + a) % 9 == 0 else None)
+    # single-literal expressions: 0, 1, 2 in every base and with every suffix
+    if shard == 0:
+        for n in (0, 1, 2, 8):
+            for base in ("dec", "hex", "oct", "bin"):
+                for suf in mx.SUFFIXES:
+                    l = mx.lit(n, base, suf)
+                    if l[3] is not None:
+                        vs_all += check_case(({}, l), res, queue if (n + len(suf)) % 4 == 0 else None)
+                        vs_all += check_case(({"M0": l}, ("id", "M0")), res, None)
     # (c) unary o binary and binary o unary
     for idx, (u, o) in enumerate(itertools.product(mx.UNOPS, mx.BINOPS)):
         if idx % nshards != shard:
